@@ -10,13 +10,23 @@ Oracles on the real code (never use the model):
             identical once every text outside whitespace-preserving elements is made blank-free
   cache-typed   the same with attribute values that are Markup instances (marked occurrences of a
             stream's attribute values are wrapped in Markup): cache on == cache off on the whole pipeline
-Correspondence: the same renders against the Lean model (`gdrv C09 render`), all configurations;
+  flat-cache    item streams for the NamespaceFlattener (harness/gen_flatcache.py: the identical start tag recurs
+            across namespace scope changes - declarations entering / leaving scope, re-bound prefixes, made-up
+            default (un)declarations, builder streams without START_NS, Markup / plain twins): the whole serializer,
+            cache on == cache off, three methods x strip on/off
+Correspondence: `gdrv C09 cflat`: the real NamespaceFlattener(prefixes, cache=True / False) alone on those item
+streams against the Lean model of the filter with its cache (`Xml.cflatten`, Model/OutputFlattenCache.lean), typed
+values compared with their types; `gdrv C09 flatser` (stream `sert`): that filter followed by the main loop of the method, both with the
+same cache flag, against `serT` (Model/OutputFlatPipeline.lean); `gdrv C09 renderfull`: the whole serializer with the full
+flattener (`renderFull`, Model/OutputPipelineFull.lean) against the real render, every configuration of the
+namespace-heavy profiles and a third of the others; the same renders against the Lean model (`gdrv C09 render`), all configurations;
 `gdrv C09 loopm`: the main loops alone (filters removed) on typed events — START / EMPTY data whose
 attribute values are Markup or plain — against the Lean model of the repaired loops (`loopT`).
 """
 import json
 from harness import proto, outlib
 from harness import gen_streams as G
+from harness import gen_flatcache as F
 from harness.framework import Result, pmap
 from harness.proto import Atom
 
@@ -24,8 +34,14 @@ PROP = 'C09'
 TRUSTED = [
     'modelled, not verified: genshi/output.py EmptyTagFilter, WhitespaceFilter, DocTypeInserter, the three '
     'serializer main loops (hand-written Lean model, tied by differential correspondence on rendered output)',
-    'NamespaceFlattener is modelled on the lite domain only (no namespaces, or XHTML elements with prefix ""; '
-    'xml:* attributes); namespace-heavy streams are judged by the oracles only (the model answers unmodelled)',
+    'NamespaceFlattener inside `render` is modelled on the lite domain only (no namespaces, or XHTML elements with '
+    'prefix ""; xml:* attributes; proved to be the full model restricted); the filter WITH its START/EMPTY cache is '
+    'modelled on the full namespace domain (Model/OutputFlattenCache.lean over C02\'s Model/XmlFlatten.lean, '
+    'hand-written, tied by the cflat / sert correspondence streams with cache on and off), and `renderFull` '
+    '(Model/OutputPipelineFull.lean) is the whole serializer with it, tied by the renderfull stream on the '
+    'namespace-heavy profiles',
+    'START_NS(prefix, None) with a non-empty prefix is outside the generators (C02\'s model reads an unbound '
+    'prefix and the URI None differently from the code; the XML parser never produces it)',
     'not modelled: Python re (the two regular expressions of WhitespaceFilter are list functions in Lean, '
     'compared with re on generated text), dict/tuple hashing and equality of cache keys (modelled as event equality)',
     'C escape() vs escapePy: tied by C18',
@@ -261,6 +277,12 @@ def oracle_case(case):
         if on != off:
             return bad('output with the event cache enabled equals output with it disabled (Markup attribute values)',
                        off, on)
+    elif kind == 'flat-cache':
+        on = render_items(case['items'], cfg_of(case, cache=True))
+        off = render_items(case['items'], cfg_of(case, cache=False))
+        if on != off:
+            return bad('output with the event cache enabled equals output with it disabled (namespace scopes)',
+                       off, on)
     elif kind == 'markup-attr':
         # a Markup-typed attribute value and the equal plain string in one stream
         from genshi.core import START, END, TEXT, QName, Attrs, Markup
@@ -276,6 +298,96 @@ def oracle_case(case):
     else:
         raise ValueError(kind)
     return None
+
+
+# --------------------------------------------------------------------------
+# the flattener's cache under namespace scope changes
+
+def render_items(items, cfg):
+    """the whole serializer on an item stream (EMPTY written as START, END)"""
+    try:
+        return ''.join(outlib.serializer(cfg)(iter(F.to_events(items, expand_empty=True))))
+    except Exception as e:  # noqa
+        return ('err', type(e).__name__)
+
+
+def sert_real(items, pref, method, cache, dropd):
+    """the real serializer behind EmptyTagFilter: NamespaceFlattener(prefixes, cache) + the main loop"""
+    from genshi.output import NamespaceFlattener
+    ser = outlib.serializer(outlib.config(method, False, cache, None, dropd))
+    ser.filters = [NamespaceFlattener(prefixes=pref, cache=cache)]
+    try:
+        return ''.join(ser(iter(F.to_events(items))))
+    except Exception as e:  # noqa
+        return ('err', type(e).__name__)
+
+
+def sert_line(items, pref, method, cache, dropd):
+    d = {F.XML_NS: 'xml'}
+    d.update(pref or {})
+    return proto.line(Atom('C09'), Atom('flatser'), Atom(method), outlib.B(cache), outlib.B(dropd),
+                      sorted([u, p] for u, p in d.items()), F.to_wire(items))
+
+
+def flat_cache_part(rng, n, res):
+    """n item streams: oracle flat-cache on the whole serializer, correspondence cflat on the filter alone"""
+    lines, meta = [], []
+    slines, smeta = [], []
+    for _ in range(n):
+        items, pref, shape = F.gen_items(rng)
+        res.count('cflat:shape:' + shape)
+        res.count('cflat:items', len(items))
+        for m in outlib.METHODS:
+            for strip in ((True, False) if rng.random() < 0.3 else (False,)):
+                c = {'kind': 'flat-cache', 'items': items, 'method': m, 'strip': strip}
+                res.evaluations += 1
+                res.count('oracle:flat-cache')
+                f = oracle_case(c)
+                if f:
+                    res.failures.append(f)
+        for cache in (True, False):
+            lines.append(F.model_line(items, pref, cache))
+            meta.append((items, pref, cache, shape))
+        if any(it[0] == 'NS' and it[2] is None for it in items):
+            # the URI None is written by escape(None) = ''; the model carries the reserved string U+0000
+            res.count('sert:skipped-none-uri')
+        else:
+            m = rng.choice(outlib.METHODS)
+            dropd = rng.random() < 0.7
+            for cache in (True, False):
+                slines.append(sert_line(items, pref, m, cache, dropd))
+                smeta.append((items, pref, m, cache, dropd))
+    for (items, pref, m, cache, dropd), ans in zip(smeta, proto.run_lines(slines)):
+        model = outlib.model_answer(ans)
+        real = sert_real(items, pref, m, cache, dropd)
+        res.streams['sert'] = res.streams.get('sert', 0) + 1
+        res.evaluations += 1
+        if model != real:
+            res.disagreements.append({'stream': 'sert', 'case': {'kind': 'flat-cache', 'items': items, 'prefixes': pref,
+                                                                  'cache': cache, 'method': m, 'strip': False},
+                                      'model': repr(model)[:600], 'real': repr(real)[:600]})
+    for (items, pref, cache, shape), ans in zip(meta, proto.run_lines(lines)):
+        ans = proto.dec(ans)
+        model = F.model_json(ans[0])
+        real = F.real_flatten(items, pref, cache)
+        res.streams['cflat'] = res.streams.get('cflat', 0) + 1
+        res.evaluations += 1
+        if cache:
+            hits, stores = int(ans[1]), int(ans[2])
+            res.count('cflat:model-cache-hits', hits)
+            res.count('cflat:model-cache-stores', stores)
+            if hits:
+                res.count('cflat:streams-with-hit')
+            feats = F.features(items, real)
+            for k in sorted(feats):
+                res.count('cflat:' + k)
+            if hits and 'same-tag-flattened-differently' in feats:
+                res.count('cflat:hit-and-same-tag-flattened-differently')
+                res.nontrivial.add(json.dumps(items, sort_keys=True)[:300])
+        if model != real:
+            res.disagreements.append({'stream': 'cflat', 'case': {'kind': 'flat-cache', 'items': items, 'prefixes': pref,
+                                                                   'cache': cache, 'method': 'xml', 'strip': False},
+                                      'model': repr(model)[:600], 'real': repr(real)[:600]})
 
 
 # --------------------------------------------------------------------------
@@ -425,6 +537,7 @@ def shard(arg):
     rng = random.Random('%s/%s/C09' % (seed, idx))
     res = Result()
     lines, meta = [], []
+    flines, fidx = [], []
     tlines, tmeta = [], []
     for _ in range(n):
         profile, knobs = pick_profile(rng)
@@ -485,8 +598,14 @@ def shard(arg):
         for cfg in corr_configs(dt, dropd):
             lines.append(outlib.model_render_line(js, cfg))
             meta.append((js, cfg))
+            # the whole serializer with the FULL flattener (renderFull): every configuration of the namespace-heavy
+            # profiles (where `render` answers unmodelled), every third one elsewhere
+            if profile.startswith('ns-heavy') or profile.startswith('xhtml-ns') or len(lines) % 3 == 0:
+                flines.append(lines[-1].replace('C09 render ', 'C09 renderfull ', 1))
+                fidx.append(len(lines) - 1)
         if len(res.samples) < 2:
             res.samples.append({'stream': js, 'profile': profile})
+    flat_cache_part(rng, max(1, n // 3), res)
     # regex model against Python's re
     ws_texts = [G.rand_text(rng, 'ws', 14) for _ in range(n)]
     ws_lines = [proto.line(Atom('C09'), Atom('wsnorm'), t) for t in ws_texts]
@@ -503,12 +622,31 @@ def shard(arg):
                                                                    'method': m, 'strip': False},
                                       'model': repr(model)[:600], 'real': repr(real)[:600]})
     answers = proto.run_lines(lines + ws_lines)
-    for (js, cfg), ans in zip(meta, answers[:len(lines)]):
+    reals = {}
+
+    def real_of(i):
+        if i not in reals:
+            reals[i] = outlib.render(meta[i][0], meta[i][1])
+        return reals[i]
+    for i, ans in zip(fidx, proto.run_lines(flines)):
+        js, cfg = meta[i]
+        model = outlib.model_answer(ans)
+        if model is None:
+            res.count('model:unmodelled:renderfull')
+            continue
+        res.streams['renderfull'] = res.streams.get('renderfull', 0) + 1
+        res.evaluations += 1
+        if answers[i] == 'unmodelled':
+            res.count('renderfull:outside-the-lite-domain')
+        if model != real_of(i):
+            res.disagreements.append({'stream': 'renderfull', 'case': {'kind': 'render', 'stream': js, **cfg_case(cfg)},
+                                      'model': repr(model)[:600], 'real': repr(real_of(i))[:600]})
+    for i, ((js, cfg), ans) in enumerate(zip(meta, answers[:len(lines)])):
         model = outlib.model_answer(ans)
         if model is None:
             res.count('model:unmodelled')
             continue
-        real = outlib.render(js, cfg)
+        real = real_of(i)
         res.streams['render'] = res.streams.get('render', 0) + 1
         res.evaluations += 1
         if model != real:
@@ -540,6 +678,18 @@ def fixed_cases():
         out.append({'kind': 'cache-typed', 'method': m, 'strip': True, 'marks': [[3, 0]], 'stream': [
             ['S', ['', 'a'], [[['', 't'], 'x&y']]], ['T', 'q', False], ['E', ['', 'a']],
             ['S', ['', 'a'], [[['', 't'], 'x&y']]], ['T', 'q', False], ['E', ['', 'a']]]})
+    # the flattener's cache across namespace scopes (seeded C08-4 / C09-3 shapes; DESIGN #38)
+    tw = ['TAG', False, ['u1', 'a'], [[['', 'x'], 'x&y', False]]]
+    twm = ['TAG', False, ['u1', 'a'], [[['', 'x'], 'x&y', True]]]
+    for m in outlib.METHODS:
+        out.append({'kind': 'flat-cache', 'method': m, 'strip': False, 'items': [
+            tw, tw, ['E', ['u1', 'a']], ['E', ['u1', 'a']], tw, ['E', ['u1', 'a']]]})
+        out.append({'kind': 'flat-cache', 'method': m, 'strip': False, 'items': [
+            ['NS', 'p', 'u1'], tw, tw, ['NS', 'p', 'u2'], ['TAG', False, ['u2', 'b'], []], tw, ['E', ['u1', 'a']],
+            ['E', ['u2', 'b']], ['ENS', 'p'], tw, ['E', ['u1', 'a']], ['E', ['u1', 'a']], ['E', ['u1', 'a']],
+            ['ENS', 'p'], tw, ['E', ['u1', 'a']]]})
+        out.append({'kind': 'flat-cache', 'method': m, 'strip': False, 'items': [
+            ['NS', '', 'u1'], tw, twm, ['E', ['u1', 'a']], tw, ['E', ['u1', 'a']], ['E', ['u1', 'a']], ['ENS', '']]})
     return out
 
 
@@ -558,7 +708,9 @@ def run(ctx):
     res.rule = ('seeded well-nested streams over the HTML vocabulary drawn from small text/attribute pools so that the same '
                 'TEXT/START/END recurs inside and outside CDATA, script/style, pre/textarea and xml:space=preserve; '
                 'non-trivial = a text containing & < > occurs in two different contexts, or a START event is repeated; '
-                'distinct by canonical JSON of the stream')
+                'distinct by canonical JSON of the stream; item streams for the NamespaceFlattener (gen_flatcache) count '
+                'when the modelled cache served a start tag AND the same start tag is flattened in two different '
+                'ways within the stream')
     res.samples = res.samples[:4]
     return res
 
@@ -567,6 +719,15 @@ def search(ctx, res, broken):
     found = []
     for d in res.disagreements[:100]:
         c = d.get('case') or {}
+        if c.get('kind') == 'flat-cache':
+            for m in outlib.METHODS:
+                for strip in (True, False):
+                    f = oracle_case({'kind': 'flat-cache', 'items': c['items'], 'method': m, 'strip': strip})
+                    if f:
+                        found.append(f)
+            if found:
+                return found
+            continue
         if 'stream' not in c:
             continue
         js = c['stream']
@@ -609,6 +770,8 @@ def replay(ctx, case):
     if not outlib.valid_config(case):
         return None
     if 'stream' in case and not G.valid_stream(case['stream']):
+        return None
+    if case.get('kind') == 'flat-cache' and not F.valid_items(case.get('items')):
         return None
     if case.get('kind') == 'cache-typed' and not valid_marks(case.get('stream') or [], case.get('marks')):
         return None
